@@ -359,6 +359,19 @@ def be_value(ip, b):
     ip.path.assume(r >= 0)
     if zu._entails(z3.Length(b) == 20):
         ip.path.assume(r < 2 ** 160)
+    # definitional axiom when the length is pinned (<= 32 bytes): the value IS the base-256 digit sum, so code that reads the bytes
+    # one by one (int.from_bytes on a slice, indexing) and code that formats the whole number agree
+    done = ip.path.__dict__.setdefault("be_value_defined", set())
+    if r.get_id() not in done:
+        done.add(r.get_id())
+        n = ip.path.unique_int(z3.Length(b))
+        if n is not None and 0 < n <= 32:
+            acc = z3.IntVal(0)
+            for i in range(n):
+                d = zu.smart_nth(b, z3.IntVal(i))
+                ip.path.assume(z3.And(d >= 0, d <= 255))
+                acc = acc * 256 + d
+            ip.path.assume(r == acc)
     return ip.wrap(r, "int")
 
 
@@ -474,6 +487,43 @@ def install(ip):
         signed = k.get("signed", False)
         if isinstance(b, bytes):
             return int.from_bytes(b, order, signed=signed)
+        if isinstance(b, Sym) and b.ty == "bytes" and not signed and order in ("big", "little"):
+            # length pinned by the path condition, or split over the (small) lengths the path condition allows
+            ln = z3.Length(b.t)
+            n = ip.path.unique_int(ln)
+            if n is None:
+                # the arithmetic abstraction does not see through seq.at / nested extracts: one model + one entailment query on the
+                # full path condition before falling back to a split
+                s1 = ip.path._fresh_solver(2000000)
+                if s1.check() == z3.sat:
+                    v = s1.model().eval(ln, model_completion=True)
+                    if z3.is_int_value(v):
+                        s1.add(ln != v)
+                        if s1.check() == z3.unsat:
+                            n = v.as_long()
+                            ip.path.assume(ln == n)
+            if n is None:
+                for cand in range(0, 9):
+                    if ip.path.branch(ln == cand):
+                        n = cand
+                        break
+                else:
+                    s2 = ip.path._fresh_solver(2000000)     # the abstraction could not bound the length: ask the full solver once
+                    s2.add(ln > 8)
+                    if s2.check() == z3.unsat:
+                        from .values import PathAbort
+                        raise PathAbort("infeasible")
+                    raise Unsupported("int.from_bytes on symbolic bytes longer than 8")
+            digits = [zu.smart_nth(b.t, z3.IntVal(i)) for i in range(n)]
+            for d in digits:
+                if not z3.is_int_value(d):
+                    ip.path.assume(z3.And(d >= 0, d <= 255))      # elements of a bytes object
+            if order == "little":
+                digits.reverse()
+            acc = z3.IntVal(0)
+            for d in digits:
+                acc = acc * 256 + d
+            return ip.wrap(z3.simplify(acc), "int")
         raise Unsupported("int.from_bytes on symbolic bytes")
     ip.methods[("class:int", "from_bytes")] = int_from_bytes
 
@@ -533,6 +583,7 @@ def install(ip):
         raise Unsupported(f"bytes() of {type(v).__name__}")
     bc("bytes", bytes_ctor)
     bc("bytearray", bytes_ctor)
+    bc("memoryview", lambda ip, a, k: (_ for _ in ()).throw(Unsupported("memoryview()")))   # as an isinstance target only
 
     def str_ctor(ip, a, k):
         if not a:
@@ -991,7 +1042,20 @@ def install(ip):
         reduce=Builtin("reduce", _reduce))
     mod("contextlib", suppress=Builtin("suppress", lambda ip, a, k: _Suppress(tuple(a))),
         nullcontext=Builtin("nullcontext", lambda ip, a, k: _NullCtx(a[0] if a else None)))
-    mod("operator", methodcaller=Builtin("methodcaller", lambda ip, a, k: MethodCaller(a[0], a[1:], k)),
+    _opmod = {}
+    for _n, _op in (("or_", ast.BitOr), ("and_", ast.BitAnd), ("xor", ast.BitXor), ("add", ast.Add), ("sub", ast.Sub), ("mul", ast.Mult),
+                    ("floordiv", ast.FloorDiv), ("mod", ast.Mod), ("lshift", ast.LShift), ("rshift", ast.RShift), ("pow", ast.Pow),
+                    ("concat", ast.Add)):
+        _opmod[_n] = Builtin("operator." + _n, lambda ip, a, k, _op=_op: ip.binop_values(_op(), a[0], a[1]))
+    for _n, _op in (("eq", ast.Eq), ("ne", ast.NotEq), ("lt", ast.Lt), ("le", ast.LtE), ("gt", ast.Gt), ("ge", ast.GtE),
+                    ("is_", ast.Is), ("is_not", ast.IsNot), ("contains", None)):
+        if _op is None:
+            _opmod[_n] = Builtin("operator.contains", lambda ip, a, k: ip.compare_values(ast.In(), a[1], a[0]))
+        else:
+            _opmod[_n] = Builtin("operator." + _n, lambda ip, a, k, _op=_op: ip.compare_values(_op(), a[0], a[1]))
+    _opmod["not_"] = Builtin("operator.not_", lambda ip, a, k: ip.py_not(a[0]) if hasattr(ip, "py_not") else (not ip.truthy(a[0])))
+    _opmod["truth"] = Builtin("operator.truth", lambda ip, a, k: ip.truthy(a[0]))
+    mod("operator", methodcaller=Builtin("methodcaller", lambda ip, a, k: MethodCaller(a[0], a[1:], k)), **_opmod,
         itemgetter=Builtin("itemgetter", lambda ip, a, k: (_ for _ in ()).throw(Unsupported("itemgetter"))))
     logger = Opaque("logger", kind="logger")
     mod("logging", getLogger=Builtin("getLogger", lambda ip, a, k: logger), DEBUG=10, INFO=20, WARNING=30, ERROR=40,
